@@ -1432,12 +1432,41 @@ func (a *Agent) createRelayCandidate(ctx context.Context, ep relayEndpoint, ip n
 	return nil
 }
 
+func (a *Agent) relayNetworkTypeConfigured(network string, ip net.IP) bool {
+	addr, ok := netip.AddrFromSlice(ip)
+	if !ok {
+		return false
+	}
+	networkType, err := determineNetworkType(network, addr)
+	if err != nil {
+		return false
+	}
+	for _, configured := range configuredNetworkTypes(a.networkTypes) {
+		if configured == networkType {
+			return true
+		}
+	}
+
+	return false
+}
+
 func (a *Agent) addRelayCandidates(ctx context.Context, ep relayEndpoint) {
 	if ep.conn == nil || ep.address == nil {
 		return
 	}
 
 	addresses, ok := a.resolveRelayAddresses(ep)
+	if ok {
+		// Publish only candidates of a configured network type (the relayed address may
+		// be of another IP family than the transport types the agent was given).
+		allowed := addresses[:0:0]
+		for _, ip := range addresses {
+			if a.relayNetworkTypeConfigured(ep.network, ip) {
+				allowed = append(allowed, ip)
+			}
+		}
+		addresses, ok = allowed, len(allowed) > 0
+	}
 	if !ok {
 		// The allocation is dropped (e.g. a replace rule without usable external
 		// addresses): release it instead of leaking the relay and its TURN client.
